@@ -262,7 +262,7 @@ func (r *exprRun) localise(e *Ex, row int) (*Ex, string) {
 	return e, r.symptom(e, row)
 }
 
-func (r *exprRun) argKinds(e *Ex, row int) string {
+func (r *exprRun) argKindsRaw(e *Ex, row int) []string {
 	var ks []string
 	for _, a := range e.Args {
 		p := r.eval(a)
@@ -279,24 +279,108 @@ func (r *exprRun) argKinds(e *Ex, row int) string {
 			ks = append(ks, coarse(kindOf(p.sam[row])))
 		}
 	}
-	return canonArgs(e, ks)
+	return ks
 }
 
-// canonArgs canonicalises the argument kinds of operators: an error, missing or null operand of a binary
-// operator is what matters whatever the other operand is; otherwise the pair is sorted.
+func (r *exprRun) argKinds(e *Ex, row int) string { return canonArgs(e, r.argKindsRaw(e, row)) }
+
+// canonArgs canonicalises the argument kinds of binary operators (sorted).
 func canonArgs(e *Ex, ks []string) string {
+	ks = append([]string(nil), ks...)
 	switch e.Op {
 	case "+", "-", "*", "/", "%", "==", "!=", "<", "<=", ">", ">=", "and", "or":
-		for _, special := range []string{"missing", "error", "null"} {
-			for _, k := range ks {
-				if k == special {
-					return special + "-operand"
-				}
-			}
-		}
 		sort.Strings(ks)
 	}
 	return strings.Join(ks, ",")
+}
+
+func family(k string) string {
+	switch k {
+	case "int", "uint", "float", "int-narrow", "uint-narrow", "float-narrow":
+		return "num"
+	}
+	return k
+}
+
+// rootCause maps (operator, argument kinds, symptom) to a root-cause class where the harness knows one;
+// "" means: no rule, the detailed signature is used.  Every rule names the symptom it covers, so a
+// different failure of the same operator keeps its own signature.
+func rootCause(e *Ex, ks []string, sym string) string {
+	oc := e.opClass()
+	isArith := strings.HasPrefix(oc, "arith:")
+	isCmp := strings.HasPrefix(oc, "compare:")
+	isLogic := oc == "and" || oc == "or" || oc == "not"
+	has := func(k string) bool {
+		for _, x := range ks {
+			if x == k {
+				return true
+			}
+		}
+		return false
+	}
+	from, to, _ := strings.Cut(sym, "->")
+	grp := oc
+	switch {
+	case isArith:
+		grp = "arith"
+	case isCmp:
+		grp = "compare"
+	case isLogic:
+		grp = "logic"
+	}
+	switch {
+	case strings.HasPrefix(sym, "panic("):
+		msg := sym[len("panic("):]
+		switch {
+		case strings.Contains(msg, "integer divide by zero"):
+			return grp + "/panic-integer-divide-by-zero"
+		case strings.Contains(msg, "kind mismatch after coerce"):
+			return grp + "/panic-kind-mismatch-after-coerce"
+		case strings.Contains(msg, "intToFloat invalid type"):
+			return grp + "/panic-intToFloat-invalid-type"
+		}
+		if e.Op == "call" {
+			return oc + "/" + sym
+		}
+		return ""
+	case (isArith || isCmp) && (has("missing") || has("error")) && to == "error(incompatible types)" && (from == "missing" || strings.HasPrefix(from, "error")):
+		return grp + "/error-operand-not-propagated"
+	case isLogic && has("missing") && from == "missing" && to == "error(not type bool)":
+		return "logic/missing-operand-not-propagated"
+	case isLogic && from == "error{not type bool}" && to == "error(not type bool)":
+		return "logic/non-bool-operand-error-shape"
+	case isLogic && from == "bool" && to == "error(not type bool)":
+		return "logic/column-not-uniformly-bool"
+	case isCmp && has("null") && !has("missing") && !has("error"):
+		return "compare/null-operand"
+	case isArith && has("null") && !has("missing") && !has("error"):
+		return "arith/null-operand"
+	case isCmp && from == "bool" && to == "error(incompatible types)" && len(ks) == 2:
+		if ks[0] == "bool" && ks[1] == "bool" {
+			return "compare/bool-operands"
+		}
+		if family(ks[0]) != family(ks[1]) {
+			return "compare/cross-family-operands"
+		}
+		return ""
+	case isArith && strings.HasSuffix(from, "-narrow") && to == strings.TrimSuffix(from, "-narrow"):
+		return "arith/narrow-result-widened"
+	case isArith && from == "error(divide by zero)" && to == "float":
+		return "arith/float-divide-by-zero"
+	case isArith && strings.HasPrefix(from, "error(type ") && to == "error(incompatible types)":
+		return "arith/non-numeric-operand-message"
+	case e.Op == "call":
+		return oc + "/" + sym
+	}
+	return ""
+}
+
+func (r *exprRun) signature(e *Ex, row int, sym string) string {
+	ks := r.argKindsRaw(e, row)
+	if rc := rootCause(e, ks, sym); rc != "" {
+		return "C09/expr/" + rc
+	}
+	return "C09/expr/" + e.opClass() + "(" + canonArgs(e, ks) + ")/" + sym
 }
 
 func runExprCase(c ExprCase) *vt.Outcome {
@@ -339,7 +423,7 @@ func runExprCase(c ExprCase) *vt.Outcome {
 		// localise over sub-expressions using row 0 as the probe row (these symptoms are not row specific)
 		e, sym := r.localise(c.Expr, 0)
 		colKinds := r.columnKinds(e)
-		sig := "C09/expr/" + e.opClass() + "/" + sym
+		sig := r.signature(e, 0, sym)
 		if report(sig, fmt.Sprintf("`yield %s` over %d values: vector runtime: %s (sub-expression `%s`, argument kinds in the input: %s); sequential runtime returns %d values, e.g. %s",
 			c.Text, n, sym, e.String(), colKinds, len(top.sam), oracle.Show(top.sam[0]))) {
 			return o
@@ -354,7 +438,7 @@ func runExprCase(c ExprCase) *vt.Outcome {
 		}
 		differing++
 		e, sym := r.localise(c.Expr, row)
-		sig := "C09/expr/" + e.opClass() + "(" + r.argKinds(e, row) + ")/" + sym
+		sig := r.signature(e, row, sym)
 		if known[sig] {
 			continue
 		}
